@@ -40,6 +40,17 @@ Theorem RealInv_step_real tab_el tab_en check_fn LATEST root_attrs o w r w' :
   Inv.run RT tab_el tab_en check_fn LATEST root_attrs o w = Val (r, w') -> RealInv RT w'.
 Proof. apply RealInv_step. exact RefChars_real. Qed.
 
+(* the same statement in the order asked for by the follow-up package *)
+Theorem inv_real tab_el tab_en check_fn LATEST root_attrs o w r w' :
+  Inv.Known_failed_reparent RT tab_el tab_en check_fn LATEST root_attrs w o = false ->
+  TreeInv w /\ CharsLeaf RT w /\ OriginsRef RT w ->
+  Inv.run RT tab_el tab_en check_fn LATEST root_attrs o w = Val (r, w') ->
+  TreeInv w' /\ CharsLeaf RT w' /\ OriginsRef RT w'.
+Proof. intros HK I H. exact (RealInv_step_real _ _ _ _ _ _ _ _ _ I HK H). Qed.
+
+Theorem refchars_real_both : ref_chars_b RT = true /\ RefChars RT.
+Proof. exact (conj ref_chars_real_b RefChars_real). Qed.
+
 Theorem RealInv_histories_real tab_el tab_en check_fn LATEST root_attrs l w w' :
   RealInv RT w -> Inv.clean_rep_ops RT tab_el tab_en check_fn LATEST root_attrs l w = true ->
   Inv.run_ops RT tab_el tab_en check_fn LATEST root_attrs l w = Val w' -> RealInv RT w'.
